@@ -23,8 +23,7 @@ THEOREMS = [
     "C05_outcomes", "C05_value_error_iff", "C05_hooks",
     "C05_first_bad", "C05_all_good_ok", "C05_extra_exact",
     "C05_no_silent_default_partial", "C05_union_outcomes", "C05_union_exceptions",
-    "C05_union_rejects_garbage_partial", "C05_union_rejects_garbage_refuted", "C05_discr_partial",
-    "C05_discr_nonmapping_refuted", "C05_discr_unhashable_refuted", "C05_discr_nofield",
+    "C05_union_rejects_garbage_partial", "C05_union_rejects_garbage_refuted", "C05_discr", "C05_discr_nofield",
     "C05_discr_call_history_free", "C05_discr_history", "C05_discr_variant_outcome_propagates",
 ]
 
